@@ -19,6 +19,26 @@ def battery(seed: int, n: int) -> list[dict]:
         p = common.points_for(rng, e, 1)[0]
         e2, p2 = gen.safe_numbers(e, p)
         out.append({"e": wire.expr(e2, ids={}), "p": [[k, wire.num(v)] for k, v in sorted(p2.items())], "vars": vs})
+    # two variables whose partial derivatives are equal expressions (==, same hash) written differently - int against
+    # float constants, bases, exponents: anything remembered per *equal* expression while iterating over a set of names
+    # makes the answer for one variable depend on which name the hash seed puts first
+    X, V, C = gen.X, gen.X.Variable, gen.X.Constant
+    stock = ["x", "\u00b5", "\u03bc", "alpha", "b2", "zeta", "kk", "w_1"]
+    for k in range(max(8, n // 12)):
+        a, b, c = rng.sample(stock, 3)
+        pair = rng.choice([
+            (C(3), C(3.0)), (X.NthPower(C(17), 13), X.NthPower(C(17.0), 13)), (X.Multiply(C(2), X.Sine(V(c))), X.Multiply(C(2.0), X.Sine(V(c)))),
+            (X.Exponential(V(c), base=2), X.Exponential(V(c), base=2.0)), (X.Add(C(10 ** 16), C(1)), X.Add(C(1e16), C(1.0))),
+            (X.NthPower(C(10), 23), X.NthPower(C(10.0), 23)), (X.Minus(C(2 ** 60), C(1)), X.Minus(C(2.0 ** 60), C(1.0))),
+            (X.Logarithm(V(c), base=10), X.Logarithm(V(c), base=10.0)), (X.Multiply(C(7), V(c), C(3)), X.Multiply(C(7.0), V(c), C(3.0)))])
+        if rng.random() < 0.5:
+            pair = (pair[1], pair[0])
+        e = X.Add(X.Multiply(V(a), pair[0]), X.Multiply(V(b), pair[1]))
+        if rng.random() < 0.4:
+            e = X.Add(X.Multiply(pair[1], V(b)), X.Sine(V(a)), X.Multiply(V(a), pair[0]))
+        vs = common.names_of(e)
+        p = {nm: rng.choice([0.5, 1.5, 2.0, 3.0, 0.75]) for nm in vs}
+        out.append({"e": wire.expr(e, ids={}), "p": [[kk, wire.num(v)] for kk, v in sorted(p.items())], "vars": [a, b] + [nm for nm in vs if nm not in (a, b)]})
     return out
 
 
